@@ -298,12 +298,27 @@ fn encode_once(g: &CompositionGraph, define: bool, validate: bool) -> (String, O
 }
 
 /// the four option combinations on one graph
-fn encode_all(g: &CompositionGraph, lib: &[Vec<u8>], f: &mut Vec<String>) {
+fn encode_all(g: &CompositionGraph, lib: &[Vec<u8>], f: &mut Vec<String>) { encode_all_with(&|d, v| encode_once(g, d, v), lib, f) }
+
+/// documents are encoded through `Resolution::encode` (the observation point the property names)
+fn encode_resolution(r: &wac_parser::resolution::Resolution, define: bool, validate: bool) -> (String, Option<Vec<u8>>) {
+    use wac_parser::resolution::Error as RE;
+    match catch_unwind(AssertUnwindSafe(|| r.encode(EncodeOptions { define_components: define, validate, processor: None }))) {
+        Ok(Ok(b)) => ("ok".into(), Some(b)),
+        Ok(Err(RE::ValidationFailure { source })) => (format!("E:ValidationFailure({})", clean(&source.to_string())), None),
+        Ok(Err(RE::ImportConflict { name, .. })) => (format!("E:ImplicitImportConflict({})", enc(&name)), None),
+        Ok(Err(RE::InstantiationArgMergeFailure { name, .. })) => (format!("E:ImportTypeMergeConflict({})", enc(&name)), None),
+        Ok(Err(e)) => (format!("E:Other({})", clean(&e.to_string())), None),
+        Err(e) => (format!("PANIC({})", panic_msg(e)), None),
+    }
+}
+
+fn encode_all_with(encode: &dyn Fn(bool, bool) -> (String, Option<Vec<u8>>), lib: &[Vec<u8>], f: &mut Vec<String>) {
     // what is known before the (possibly fatal) encoding: read by the supervisor when the process dies
     if let Ok(p) = std::env::var("C01_PRE") { let _ = std::fs::write(p, f.iter().filter(|x| x.starts_with("shape=") || x.starts_with("res=")).cloned().collect::<Vec<_>>().join("\t")); }
     for (m, define) in [("D", true), ("I", false)] {
-        let (r1, b1) = encode_once(g, define, true);
-        let (r0, b0) = encode_once(g, define, false);
+        let (r1, b1) = encode(define, true);
+        let (r0, b0) = encode(define, false);
         f.push(format!("{m}.enc1={r1}")); f.push(format!("{m}.enc0={r0}"));
         f.push(format!("{m}.same={}", match (&b1, &b0) { (Some(a), Some(b)) => (a == b) as u8, _ => 2 }));
         if let Some(b) = b0.as_ref() { f.push(format!("{m}.valid={}", validate_independently(b))); }
@@ -336,23 +351,24 @@ fn observe_history(u: &Universe, ops: &[Op]) -> String {
 
 fn dec(s: &str) -> String { if s == "-" { String::new() } else { s.split(',').map(|x| char::from_u32(x.parse().unwrap()).unwrap()).collect() } }
 
-fn observe_graph(tag: &str, g: &CompositionGraph, lib: &[Vec<u8>]) -> String {
-    let mut f = vec![format!("res={tag}"), format!("shape={}", shape_of(g)), format!("argsub={}", argsub_of(g))];
-    encode_all(g, lib, &mut f);
+fn observe_resolution(r: &wac_parser::resolution::Resolution, lib: &[Vec<u8>]) -> String {
+    let g = r.graph();
+    let mut f = vec!["res=ok".to_string(), format!("shape={}", shape_of(g)), format!("argsub={}", argsub_of(g))];
+    encode_all_with(&|d, v| encode_resolution(r, d, v), lib, &mut f);
     f.join("\t")
 }
 
 fn observe_doc(u: &Universe, src: &str) -> String {
-    let r = catch_unwind(AssertUnwindSafe(|| -> Result<CompositionGraph, String> {
+    let r = catch_unwind(AssertUnwindSafe(|| -> Result<String, String> {
         let doc = wac_parser::Document::parse(src).map_err(|e| format!("E:parse({})", clean(&e.to_string())))?;
         let mut packages: indexmap::IndexMap<BorrowedPackageKey, Vec<u8>> = Default::default();
         let vs: Vec<Option<semver::Version>> = PKGS.iter().map(|p| p.version.map(|v| semver::Version::parse(v).unwrap())).collect();
         for (i, p) in PKGS.iter().enumerate() { packages.insert(BorrowedPackageKey::from_name_and_version(p.name, vs[i].as_ref()), u.bytes[i].clone()); }
         let res = doc.resolve(packages).map_err(|e| format!("E:resolve({})", clean(&e.to_string())))?;
-        Ok(res.into_graph())
+        Ok(observe_resolution(&res, &u.bytes))
     }));
     match r {
-        Ok(Ok(g)) => observe_graph("ok", &g, &u.bytes),
+        Ok(Ok(s)) => s,
         Ok(Err(e)) => format!("res={e}"),
         Err(e) => format!("res=PANIC({})", panic_msg(e)),
     }
@@ -361,7 +377,7 @@ fn observe_doc(u: &Universe, src: &str) -> String {
 fn observe_fixture(u: &Universe, rel: &str) -> String {
     let repo = std::env::var("VERIF_REPO").unwrap_or_else(|_| "/repo".into());
     let path = std::path::Path::new(&repo).join(rel);
-    let r = catch_unwind(AssertUnwindSafe(|| -> Result<CompositionGraph, String> {
+    let r = catch_unwind(AssertUnwindSafe(|| -> Result<String, String> {
         let src = std::fs::read_to_string(&path).map_err(|e| format!("E:io({e})"))?.replace("\r\n", "\n");
         let doc = wac_parser::Document::parse(&src).map_err(|e| format!("E:parse({})", clean(&e.to_string())))?;
         let root = path.parent().unwrap().join(path.file_stem().unwrap());
@@ -370,10 +386,10 @@ fn observe_fixture(u: &Universe, rel: &str) -> String {
         let keys = wac_resolver::packages(&doc).map_err(|e| format!("E:packages({})", clean(&e.to_string())))?;
         let packages = resolver.resolve(&keys).map_err(|e| format!("E:fs({})", clean(&e.to_string())))?;
         let res = doc.resolve(packages).map_err(|e| format!("E:resolve({})", clean(&e.to_string())))?;
-        Ok(res.into_graph())
+        Ok(observe_resolution(&res, &u.bytes))
     }));
     match r {
-        Ok(Ok(g)) => observe_graph("ok", &g, &u.bytes),
+        Ok(Ok(s)) => s,
         Ok(Err(e)) => format!("res={e}"),
         Err(e) => format!("res=PANIC({})", panic_msg(e)),
     }
